@@ -324,8 +324,6 @@ def header_reads_only_its_block(c):
     """(ii) the step is a function of (state, the one block it consumes): the staged header is that block (or what
     decrypt_header made of exactly that block under the receive counter), the length is its first field"""
     bs = c.old('_recv_blocksize')
-    if z3.is_false(z3.simplify(z3.Length(c.old('_inpbuf')) >= bs)):
-        return z3.BoolVal(True)
     block = z3.Extract(c.old('_inpbuf'), 0, bs)
     dh = c.calls('decrypt_header')
     if not dh:
